@@ -45,18 +45,53 @@ def run(ctx):
 
 def check_stack(ctx):
     repo = ctx.repo
+    from ..astutil import alias_map, canon_text
     f = repo.func('sqlparse.engine.grouping._group_matching')
-    tl, clsp = f.params[0], f.params[1]
-    lp = [s for s in f.node.body if isinstance(s, ast.For)][0]
+    tl0, clsp = f.params[0], f.params[1]
+    amap = alias_map(f.node)
+    # the scan loop `for idx, token in enumerate(list(L))`, at function level (recursive form) or inside a worklist loop
+    scans = [s for s in ast.walk(f.node) if isinstance(s, ast.For) and isinstance(s.target, ast.Tuple) and len(s.target.elts) == 2
+             and isinstance(s.iter, ast.Call) and is_name(s.iter.func, 'enumerate')]
+    ctx.need(len(scans) == 1, f'{f.short}: expected one `for idx, token in enumerate(list(tlist))` scan loop, found {len(scans)}')
+    lp = scans[0]
     tokv = lp.target.elts[1].id
     loc = f'{f.mod.relpath}:{lp.lineno}'
-    # names: stack variable = a local initialised to [] before the loop
-    stacks = [s.targets[0].id for s in f.node.body if isinstance(s, ast.Assign) and is_name(s.targets[0])
-              and isinstance(s.value, ast.List) and not s.value.elts]
+    listvars = [n.id for n in ast.walk(lp.iter) if isinstance(n, ast.Name) and n.id not in ('enumerate', 'list', 'tuple')]
+    tl = listvars[0] if listvars else tl0
+    # the block that is executed once per token list: the function body, or the body of the worklist loop the scan sits in
+    def find_block(stmts):
+        if any(s is lp for s in stmts):
+            return stmts
+        for s in stmts:
+            for fld in ('body', 'orelse'):
+                sub = getattr(s, fld, None)
+                if isinstance(sub, list) and sub and isinstance(sub[0], ast.stmt):
+                    r = find_block(sub)
+                    if r is not None:
+                        return r
+        return None
+    per_list = find_block(f.node.body)
+    worklist = None
+    if per_list is not f.node.body:
+        # the enclosing loop must take its list from a worklist: L = W.pop()
+        for s in per_list:
+            if isinstance(s, ast.Assign) and is_name(s.targets[0], tl) and isinstance(s.value, ast.Call) and isinstance(s.value.func, ast.Attribute) \
+                    and s.value.func.attr in ('pop', 'popleft') and isinstance(s.value.func.value, ast.Name):
+                worklist = s.value.func.value.id
+        ctx.need(worklist is not None, f'{f.short}: the scan loop is nested but its list does not come from a worklist')
+    # names: stack variable = a local initialised to [] (the worklist itself excluded)
+    inits = [s for s in ast.walk(f.node) if isinstance(s, ast.Assign) and len(s.targets) == 1 and is_name(s.targets[0])
+             and isinstance(s.value, ast.List) and not s.value.elts and s.targets[0].id != worklist]
+    stacks = sorted({s.targets[0].id for s in inits})
     ctx.ob('R9.1', 'stack-exists', loc, 'an (initially empty) open-stack exists', len(stacks) == 1, f'stack candidates {stacks}')
     if len(stacks) != 1:
         return
     st = stacks[0]
+    init_in_scope = any(s in per_list for s in inits)
+    ctx.ob('R9.1', 'stack-per-list', f'{f.mod.relpath}:{inits[0].lineno}',
+           'every token list is matched with an open-stack of its own (initialised in the block that runs once per list)', init_in_scope,
+           f'`{st} = []` is executed once for all lists of the worklist `{worklist}`: an opener left unmatched in one list is popped by a surplus closer in '
+           'another list, and group_tokens is called with an index that belongs to a different list (the node no longer starts with its opener)')
     paths = enum_paths(lp.body)
     seen = {'open': 0, 'close': 0, 'descend': 0}
     from .c03 import check_offsets   # R9.2 shares the rule
@@ -64,6 +99,7 @@ def check_stack(ctx):
         evs, env = sym_path(p)
         facts = p.facts()
         flat = [a for a in facts if a[0] != '|']
+        flat = [(canon_text(e, amap), pol) for e, pol in flat]
         is_open = (f'{tokv}.match(*{clsp}.M_OPEN)', True) in flat
         is_close = (f'{tokv}.match(*{clsp}.M_CLOSE)', True) in flat
         is_group_other = (f'{tokv}.is_group', True) in flat and (f'isinstance({tokv}, {clsp})', False) in flat
@@ -71,15 +107,16 @@ def check_stack(ctx):
         pushes = [s for s in stm if isinstance(s, ast.Expr) and isinstance(s.value, ast.Call) and is_attr(s.value.func, 'append', st)]
         pops = [s for s in stm if isinstance(s, ast.Assign) and isinstance(s.value, ast.Call) and is_attr(s.value.func, 'pop', st)]
         groups = [s for s in stm if any(isinstance(c, ast.Call) and is_attr(c.func, 'group_tokens', tl) for c in ast.walk(s))]
-        recs = [s for s in stm if any(isinstance(c, ast.Call) and is_name(c.func, f.name) for c in ast.walk(s))]
+        recs = [s for s in stm if any(isinstance(c, ast.Call) and (is_name(c.func, f.name) or (
+            worklist is not None and is_attr(c.func, 'append', worklist))) for c in ast.walk(s))]
         desc = ' ∧ '.join(('' if pol else 'not ') + e for e, pol in flat)
         excepts = [e for e in p.events if e[0] == 'except']
         if is_group_other:
             seen['descend'] += 1
             ok = len(recs) == 1 and not pushes and not pops and not groups and p.exit == 'continue'
             if ok:
-                c = next(c for c in ast.walk(recs[0]) if isinstance(c, ast.Call) and is_name(c.func, f.name))
-                ok = is_name(c.args[0], tokv) and is_name(c.args[1], clsp)
+                c = next(c for c in ast.walk(recs[0]) if isinstance(c, ast.Call) and (is_name(c.func, f.name) or is_attr(c.func, 'append', worklist or '')))
+                ok = is_name(c.args[0], tokv) and (is_name(c.args[1], clsp) if is_name(c.func, f.name) else len(c.args) == 1)
             ctx.ob('R9.1', f'descend[{desc}]', loc, 'a group of another class is descended into (same class argument) and then skipped', ok,
                    f'recursions {len(recs)}, pushes {len(pushes)}, exit {p.exit}: later kinds would be matched across, not inside, earlier groups')
         elif is_open and not excepts:
@@ -90,7 +127,7 @@ def check_stack(ctx):
                 d = lin(next(v for (k, s, v, nm) in evs if k == 'assign' and nm == getattr(a, 'id', None))) if is_name(a) else None
                 ok = d is not None and len(d) == 2 and 1 in d.values() and -1 in d.values()
             ctx.ob('R9.1', f'open[{desc}]', loc, 'an opening token pushes the corrected current index', ok, f'pushes: {[src(s) for s in pushes]}')
-        elif is_close and not excepts:
+        elif is_close and not excepts and (st, False) not in flat:
             seen['close'] += 1
             ok = len(pops) == 1 and len(groups) == 1 and not pushes
             detail = f'pops {len(pops)}, group_tokens calls {len(groups)}'
@@ -104,7 +141,7 @@ def check_stack(ctx):
                     ok = is_name(c.args[0], clsp) and is_name(c.args[1], popped) and len(c.keywords) == 0 and len(c.args) == 3
                     detail = f'`{src(c)}` does not group (popped opener, current closer) inclusively'
             ctx.ob('R9.1', f'close[{desc}]', loc, 'a closing token pops the innermost opener and groups (opener, closer)', ok, detail)
-        elif is_close and excepts:
+        elif is_close and (excepts or (st, False) in flat):
             ok = not groups and not pushes and p.exit in ('continue', 'fall')
             ctx.ob('R9.1', f'unmatched-close[{desc}]', loc, 'a closer on an empty stack is left ungrouped and the scan continues', ok,
                    f'exit {p.exit}, groups {len(groups)}')
